@@ -569,6 +569,15 @@ func (c *Ctx) vhAssert(st *State, cond *Term, label string) {
 	neg := c.tb.Not(cond)
 	var r SatResult
 	var m *Model
+	if !cond.IsFalse() && !cond.IsTrue() && !st.pcUnsure {
+		// cheap counterexample search before the solver: a few pseudo-random assignments (mul/rotate-heavy
+		// inequalities such as two different hash functions are satisfied by almost any input but stall bit-blasting)
+		if gm := c.guessModel(st, neg); gm != nil {
+			res := &PathResult{Outcome: OutAssertFail, Label: label, Model: gm, Inputs: c.inputsFromModel(st, gm)}
+			c.finish(st, res)
+			return
+		}
+	}
 	if cond.IsFalse() {
 		m, r = c.fullModel(st, nil)
 	} else {
@@ -670,4 +679,39 @@ func (c *Ctx) protoAtomic(st *State, name string, args []Value) (intrRes, bool) 
 	}
 	unsup("protocol counter: unsupported atomic op %s", name)
 	return intrRes{}, false
+}
+
+// guessModel tries a few deterministic pseudo-random assignments of all variables and returns one that satisfies
+// pc and extra, if any. UF-based inputs are left to the solver.
+func (c *Ctx) guessModel(st *State, extra *Term) *Model {
+	ts := append(append([]*Term{}, st.pc...), extra)
+	vars, ufs := Atoms(ts)
+	if len(ufs) > 0 || len(vars) == 0 || len(vars) > 4000 {
+		return nil
+	}
+	for k := uint64(0); k < 6; k++ {
+		m := &Model{Vars: map[string]uint64{}, UFs: map[string]map[string]uint64{}, UFDefault: map[string]uint64{}}
+		for _, v := range vars {
+			switch k {
+			case 0:
+				m.Vars[v.Name] = 0
+			case 1:
+				m.Vars[v.Name] = mask64b(v.W)
+			default:
+				m.Vars[v.Name] = selfHash(v.Name, k) & mask64b(v.W)
+			}
+		}
+		memo := map[int]uint64{}
+		ok := true
+		for _, t := range ts {
+			if c.tb.Eval(t, m, memo) != 1 {
+				ok = false
+				break
+			}
+		}
+		if ok {
+			return m
+		}
+	}
+	return nil
 }
